@@ -133,7 +133,7 @@ impl ViCmd {
 		let Some(motion) = self.motion.as_mut() else { return };
 		let VerbCmd(v_count, _) = verb;
 		let MotionCmd(m_count, _) = motion;
-		let product = *v_count * *m_count;
+		let product = v_count.saturating_mul(*m_count);
 		verb.0 = 1;
 		motion.0 = product;
 	}
